@@ -58,6 +58,11 @@ finding(["C03","C19","C20"], "T2", "tensor.reuseCheckShape#reuse",
         "reuseCheckShape zeroes a reuse tensor's old AP and returns its transposeAxes() to the ints pool without clearing the field: the tensor keeps a recycled axes slice",
         "old cleared, transposeWith kept", 12)
 
+# ---- engine P (global state) -------------------------------------------------------------------
+finding(["C18"], "P4", "tensor.allTypes",
+        "Of() registers an unknown element type by appending to the global type-class table (Register -> allTypes.set) without any lock; two goroutines constructing tensors of a new element type race",
+        "unsynchronised write in tensor.Register", 25)
+
 # ---- engine L (layout predicates) ------------------------------------------------------------
 finding(["C12","C16","C07","C06","C11"], "L0", "tensor.prepDataUnary#useIter",
         "prepDataUnary has no data-order term: Neg(colA, WithIncr(rowZeros)) adds raw column-major data into a row-major buffer (non-incr reuse is compensated by handleFuncOpts giving reuse the operand's order)",
